@@ -551,7 +551,7 @@ def cases(rng, tier):
     # raw MIDI files for the two readers: zero-velocity note ons, re-struck and orphan notes, several channels
     for _ in range(40 if tier == "quick" else 1500):
         yield {"k": "raw", "seed": rng.randrange(2 ** 31), "mode": rng.choice(MODES)}
-    n = 100 if tier == "quick" else 1200
+    n = 100 if tier == "quick" else (1500 if tier == "thorough" else 1200)
     for i in range(n):
         sd = gen_score(random.Random(rng.randrange(2 ** 62)))
         if tier == "quick":
